@@ -775,7 +775,8 @@ def jobs(tier, seed):
                  cost=len(jn)))
   for name in ('trunclcg16', 'trunclcg32', 'trunclcg64', 'trunclcg128'):
     tn = [1, 7, 8, 9, 15, 16, 17, 24, 31, 32, 33, 40, 63, 64, 65, 128, 129
-         ] if tier == 'quick' else list(range(1, 161))
+         ] if tier == 'quick' else list(range(1, {
+             'trunclcg16': 49, 'trunclcg32': 57}.get(name, 161)))
     out.append(Job('emulation_%s' % name, trunclcg_emulation,
                    dict(name=name, ns=tn), timeout=3000, cost=len(tn)))
   return out
